@@ -417,3 +417,30 @@ func (r *Report) writeEvidence(path string, seed int64, checkerCmd string, nviol
 		fmt.Fprintln(os.Stderr, "evidence write:", err)
 	}
 }
+
+// CurConfig is the configuration obligations are currently recorded for.
+func (r *Report) CurConfig() string { return r.curConfig }
+
+// Borrow re-records the obligations rule fromRule produced in another report under asRule (a rule shared between properties:
+// the same construct is a necessary condition of both).
+func (r *Report) Borrow(from *Report, fromRule, asRule string) int {
+	n := 0
+	for _, o := range from.Obls {
+		if o.Rule != fromRule || o.Status == Info {
+			continue
+		}
+		construct := strings.TrimPrefix(o.Key, fromRule+":")
+		if k := strings.Index(construct, "@"); k >= 0 {
+			construct = construct[:k]
+		}
+		if k := strings.LastIndex(construct, "#"); k >= 0 {
+			construct = construct[:k]
+		}
+		if construct == "instance-floor" {
+			continue
+		}
+		r.add(asRule, construct, o.Pos, o.Status, o.Detail, o.Nontrivial)
+		n++
+	}
+	return n
+}
